@@ -8,6 +8,8 @@ CONSTANTS
   DirOf <- SameSide
   Kinds = {"call"}
   Faults = {}
+  TagMode = "fresh"
+  ResolveMode = "bytag"
   MaxPg = 0
 INVARIANTS
   Ordered NoCrossWire TagsUnique AnsweredWasDelivered StoppedIsClean ProxyHasOriginal Mirrors
